@@ -11,6 +11,7 @@ from __future__ import annotations
 
 import hashlib
 import random
+import re
 from typing import Any, Iterable
 
 from .. import loop as L
@@ -306,6 +307,12 @@ async def check_structure(ctx: Ctx, c: Conn, n: int, b: bytes) -> None:
     leaves = leaf_parts(bs)
     multipart = bool(bs and bs[0] == 'list' and bs[1]
                      and bs[1][0][0] == 'list')
+    # (an encoding the server does not know ends BINARY in a torn response,
+    # a known finding of C06: such messages are left to it)
+    known_cte = all(
+        v.strip().lower() in (b'7bit', b'8bit', b'binary', b'base64',
+                              b'quoted-printable')
+        for v in re.findall(rb'(?i)content-transfer-encoding:([^\n]*)', b))
     for path, octets, enc in leaves[:12]:
         sect = b'.'.join(b'%d' % k for k in path)
         att2 = await fetch1(c, n, b'BODY.PEEK[%s]' % sect)
@@ -335,6 +342,28 @@ async def check_structure(ctx: Ctx, c: Conn, n: int, b: bytes) -> None:
                     'detail': 'part %s announced %d octets, BODY[%s] returned '
                     '%s' % (sect.decode(), octets, sect.decode(),
                             'NIL' if got is None else len(got)),
+                    'witness': {'message': b[:3000]}})
+        if known_cte and got is not None:
+            # the same section decoded (BINARY) and as it is (BODY) in one
+            # command, the decoded form first: what BODY[..] returns must
+            # not depend on what else was asked for, before or along with it
+            att4 = await fetch1(c, n, b'BINARY.PEEK[%s] BODY.PEEK[%s]'
+                                % (sect, sect))
+            ctx.count('body_with_binary_comparisons')
+            if c.dead:
+                # torn by the decoder: C06's business, and nothing after it
+                # on this connection can be judged
+                ctx.count('binary_fetch_killed_connection')
+                return
+            if att4 is not None and att4.get(b'BODY[%s]' % sect) != got \
+                    and len(ctx.violations) < 6:
+                ctx.violations.append({
+                    'mech': 'body-differs-when-fetched-with-binary:%s'
+                    % ctx.backend,
+                    'detail': 'BODY[%s] alone returned %d octets %r..., '
+                    'after BINARY.PEEK[%s] in the same FETCH %r' % (
+                        sect.decode(), len(got), got[:30], sect.decode(),
+                        (att4.get(b'BODY[%s]' % sect) or b'NIL')[:30]),
                     'witness': {'message': b[:3000]}})
 
 
